@@ -370,7 +370,8 @@ class ExcelInPython:
         result = 0
         range_, sum_range = self._flatten_list(range_), self._flatten_list(sum_range)
         for i in range(len(range_)):
-            if i < len(sum_range) and criteria(range_[i]):
+            # a text in the sum range is left out, as SUM leaves it out
+            if i < len(sum_range) and criteria(range_[i]) and not isinstance(sum_range[i], str):
                 result += sum_range[i] or 0
 
         return result
